@@ -19,6 +19,10 @@ pub fn text() -> BoxedStrategy<String> {
         2 => (dict_word(), prop::option::weighted(0.4, (prop::sample::select(vec!["=", " ", "-", "", ".", "/"]), dict_word())))
             .prop_map(|(a, b)| match b { Some((sep, b)) => format!("{}{}{}", a, sep, b), None => a }),
         1 => "[ -~]{100,700}",
+        // a run of multi-byte characters behind a chosen number of ASCII bytes (some offset of
+        // the line then falls inside a character)
+        1 => (crate::engine::gen::interesting_len(700), prop::sample::select(vec!["é", "日", "💖", "ß"]), 4usize..12, any::<bool>())
+            .prop_map(|(n, ch, k, tail)| format!("{}{}{}", "a".repeat(n), ch.repeat(k), if tail { " tail" } else { "" })),
         1 => prop::collection::vec(any::<char>().prop_filter("no CR/LF", |c| *c != '\r' && *c != '\n'), 0..8)
             .prop_map(|v| v.into_iter().collect::<String>()),
     ]
